@@ -11,6 +11,11 @@ fn main() {
             match vharness::frontend::pipeline(&texts) {
                 Err(e) => println!("{}", json!({"error": e})),
                 Ok(defs) => {
+                    if let Ok(files) = vharness::frontend::generate_files(&texts) {
+                        for (file, code) in files {
+                            println!("{}", json!({"file": file, "code": code}));
+                        }
+                    }
                     for d in defs {
                         println!("{}", json!({"module": d.module, "name": d.name, "rust": d.rust_debug, "attribute": d.attribute,
                             "generated": d.generated, "reparsed": d.reparsed_debug.clone().unwrap_or_else(|e| format!("ERROR {}", e)),
